@@ -22,6 +22,7 @@ type cticker struct {
 	first map[int]int64 // first reading of the current operation per thread
 	nread map[int]int
 	ctor  []int64 // readings handed out before the controlled run (constructor)
+	sets  int     // number of times the script changed `now` during the run
 }
 
 func (t *cticker) Tick() int64 {
@@ -142,9 +143,11 @@ func (r *brun) body(tid int, th bthread) func() {
 			switch op.kind {
 			case "set":
 				r.tk.now = op.now
+				r.tk.sets++
 			case "can":
 				o := r.h.begin(tid, "can", -1)
 				nep := len(r.epochs)
+				setsBefore, nowBefore := r.tk.sets, r.tk.now
 				var b bool
 				if (tid+nep+len(r.h.ops))%3 == 0 {
 					// the same decision through Execute: the delegate runs iff the request is admitted, otherwise ErrFailFast
@@ -159,6 +162,19 @@ func (r *brun) body(tid int, th bthread) func() {
 				}
 				r.h.end(o, fmt.Sprint(b))
 				r.checkCan(o, b, tid, nep)
+				if !b && r.msg == "" && r.tk.noise == nil && r.tk.sets == setsBefore && r.tk.nread[tid] == 0 {
+					// rejected without looking at the clock, while the clock stood still: if the circuit was one OPEN / HALF_OPEN state during the
+					// whole call and the clock was past that state's deadline, somebody had to be admitted
+					var over []*epoch
+					for _, e := range r.epochs {
+						if e.start <= o.ret && (e.end == 0 || e.end >= o.inv) {
+							over = append(over, e)
+						}
+					}
+					if len(over) == 1 && over[0].kind != "C" && nowBefore >= over[0].deadline {
+						r.msg = fmt.Sprintf("C03 CanRequest rejected without reading the ticker although the ticker stood at %d, past the deadline %d of the %s state, during the whole call and nobody changed the state", nowBefore, over[0].deadline, over[0].kind)
+					}
+				}
 			case "succ":
 				o := r.h.begin(tid, "succ", -1)
 				r.cb.OnSuccess()
